@@ -51,6 +51,10 @@ IntCasesOf(v) ==
     \cup {[k |-> "int", sp |-> sp, site |-> "arith", t |-> t] : sp \in Spellings(v), t \in IntTys}
     \cup {[k |-> "int", sp |-> sp, site |-> "arg", t |-> t] : sp \in Spellings(v), t \in {u \in IntTys : u.w # 16}}
     \cup {[k |-> "int", sp |-> sp, site |-> site, t |-> NoTy] : sp \in Spellings(v), site \in {"local", "global"}}
+    \* further typed positions, with the plain decimal and the hexadecimal spelling
+    \cup {[k |-> "int", sp |-> sp, site |-> site, t |-> t] :
+              sp \in {[base |-> 10, ds |-> Dec(v), ex |-> <<>>], [base |-> 16, ds |-> InBase(v, 16), ex |-> <<>>]},
+              t \in IntTys, site \in {"annc", "gann", "ret", "field", "elem", "asg"}}
 
 Plain == (32..126) \ {39, 92, 34}
 CharCases == {[k |-> "char", ps |-> <<[esc |-> FALSE, ch |-> x]>>] : x \in Plain \cup {34}}
